@@ -28,11 +28,18 @@ theorem subfn_graphs :
     Generated.subfnGraphs = Generated.subfnTables.map (fun t => (List.range 256).map (subfnName t)) := by
   decide +kernel
 
+/-- the sub-function constants a caller names (`ECUReset.ResetType.hardReset`, …) carry the values ISO 14229-1 assigns, and
+    the lookup over the library's own tables answers every ISO value with the ISO name -/
+theorem subfn_iso : isoTied Generated.subfnTables = true := by decide +kernel
+
 /-- `Dtc.Format.get_name` over 0..255: first constant (name order) with that value, else None -/
 theorem dtc_format_graph :
     Generated.dtcFormatGraph =
       (List.range 256).map (fun v => ((namesFor Generated.dtcFormatConsts v).head?).getD "<None>") := by
   decide +kernel
+
+/-- the DTC format constants carry the ISO values (the code may define more) -/
+theorem dtc_format_iso : isoDtcFormat.all (fun c => Generated.dtcFormatConsts.contains c) = true := by decide +kernel
 
 /-- `ResponseCode.get_name` over 0..255 (the Model table is tied in `Tie.Tables`) -/
 theorem rc_graph : Generated.rcNameGraph = (List.range 256).map Model.rcName := by decide +kernel
